@@ -50,8 +50,7 @@ Fixpoint dump_json (v : pyval) : res pyval :=
                   else y <- dump_json x ;; ys <- go r ;; Ok ((k, y) :: ys)
               end) d ;;
       Ok (VDict r)
-  | VObj _ => Unmodelled
-  | _ => Ok v
+  | _ => Ok v                   (* incl. objects nested in a list/dict: type2cls -> None -> val = item *)
   end.
 
 Definition load_str (s : pystr) : pyval :=
@@ -75,7 +74,6 @@ Fixpoint load_json (v : pyval) : res pyval :=
               | (k, x) :: r => y <- load_json x ;; ys <- go r ;; Ok ((k, y) :: ys)
               end) d ;;
       Ok (VDict r)
-  | VObj _ => Unmodelled
   | _ => Ok v
   end.
 
@@ -105,7 +103,11 @@ Definition dump_attr (ty : ptype) (v : pyval) : res pyval :=
              | VStr _ | VDict _ => Err IndexError
              | _ => Err TypeError
              end
-  | PDictType => match v with VDict _ => Ok v | VObj _ => Unmodelled | _ => Err ValueError end
+  | PDictType => match v with
+                 | VDict _ => Ok v
+                 | VObj _ => match is_msg v with Some _ => Err ValueError | None => Unmodelled end
+                 | _ => Err ValueError
+                 end
   | PMsg _ => match is_msg v with Some (n, d) => Ok (VDict [(n, VDict d)]) | None => Unmodelled end
   | PListOf PStr | PListOf PNone | PListOf PInt | PListOf PBool =>
       match v with VList _ => Ok v | _ => Unmodelled end
@@ -118,7 +120,13 @@ Definition load_attr (ty : ptype) (v : pyval) : res pyval :=
   | PNone | PInt | PBool => Ok v
   | PStr => match v with VStr s => Ok (load_str s) | VObj _ => Unmodelled | _ => Err AttributeError end
   | PDict => match v with VDict _ => load_json v | VObj _ => Unmodelled | _ => Err AttributeError end
-  | PList => match v with VList _ => load_json v | VInt _ | VBool _ | VNone => Err TypeError | _ => Unmodelled end
+  | PList => match v with                    (* a list comprehension over item: str -> characters, dict -> keys *)
+             | VList _ => load_json v
+             | VStr s => Ok (VList (map (fun c => VStr [c]) s))
+             | VDict d => Ok (VList (map (fun p => load_str (fst p)) d))
+             | VInt _ | VBool _ | VNone => Err TypeError
+             | VObj _ => Unmodelled
+             end
   | PDictType => match v with
                  | VDict [(k, _)] => if str_eqb k s_DICT_TYPE then Unmodelled else Ok v
                  | VDict _ => Ok v
@@ -247,16 +255,25 @@ Definition covered (tabs : list (pystr * impexp_class)) (cls attr : pystr) (k : 
 (* ---- correspondence cases ---- *)
 Definition res_pyval_eqb := res_eqb pyval_eqb.
 (* (type marker, value, dump_attr's answer) *)
+Definition skip_unmodelled (m r : res pyval) : bool :=
+  match m with Unmodelled => true | _ => res_pyval_eqb m r end.
 Definition chk_dump_attr (c : ptype * pyval * res pyval) : bool :=
-  let '(ty, v, r) := c in res_pyval_eqb (dump_attr ty v) r.
+  let '(ty, v, r) := c in skip_unmodelled (dump_attr ty v) r.
 Definition chk_load_attr (c : ptype * pyval * res pyval) : bool :=
-  let '(ty, v, r) := c in res_pyval_eqb (load_attr ty v) r.
+  let '(ty, v, r) := c in skip_unmodelled (load_attr ty v) r.
+Definition is_unmodelled_dump (c : ptype * pyval * res pyval) : bool :=
+  let '(ty, v, _) := c in match dump_attr ty v with Unmodelled => true | _ => false end.
+Definition is_unmodelled_load (c : ptype * pyval * res pyval) : bool :=
+  let '(ty, v, _) := c in match load_attr ty v with Unmodelled => true | _ => false end.
 Definition res_fields_eqb (a b : res fields) : bool :=
   res_eqb (fun x y => pyval_eqb (VDict x) (VDict y)) a b.
 (* (class, attributes of the instance, its .dump()) against the regenerated table of the class *)
 Definition chk_dump_obj (tabs : list (pystr * impexp_class)) (c : pystr * fields * res fields) : bool :=
   let '(cls, o, r) := c in
-  res_fields_eqb (dump_fields (class_table tabs cls) (map fst (class_special tabs cls)) o) r.
+  match dump_fields (class_table tabs cls) (map fst (class_special tabs cls)) o with
+  | Unmodelled => true
+  | m => res_fields_eqb m r
+  end.
 (* (class, attributes of a fresh instance, dump, attributes after .load(dump)); attributes compare as a set *)
 Definition fields_subset (a b : fields) : bool :=
   forallb (fun p => match assoc (fst p) b with Some v => pyval_eqb (snd p) v | None => false end) a.
